@@ -32,13 +32,20 @@ def norm_exc(e):
     return e
 
 
+def _fail_with(fail, token):
+    # fail: True = the harness's own Boom; a str = the class of that name (vlib.targets.handler_exc_class)
+    if isinstance(fail, str):
+        raise handler_exc_class(fail)(token)
+    raise Boom(token)
+
+
 def proc_work(x):
     """x = (token, duration_s, fail)"""
     token, dur, fail = x
     if dur:
         time.sleep(dur)
     if fail:
-        raise Boom(token)
+        _fail_with(fail, token)
     return ('f', token, os.getpid() != 0)
 
 
@@ -58,7 +65,7 @@ async def async_work(x):
     else:
         await asyncio.sleep(0)
     if fail:
-        raise Boom(token)
+        _fail_with(fail, token)
     return ('f', token, True)
 
 
